@@ -53,6 +53,9 @@ type stats struct {
 	BatchConns   int                `json:"concurrent_connections"`
 	CountScheds  int                `json:"count_schedules"`
 	CountBlocked int                `json:"count_blocked_steps"`
+	LeastScheds  int                `json:"least_schedules"`
+	PickedB      int                `json:"least_picks_of_tracked_backend"`
+	PickedC      int                `json:"least_picks_of_idle_backend"`
 	Stress       int                `json:"api_stress_runs"`
 	GateArrival  map[string]int     `json:"gate_arrivals"`
 	Timing       map[string]float64 `json:"section_seconds"`
@@ -182,14 +185,14 @@ func (l *tryLog) onEvent(_ string, name string, kv []any) {
 	}
 }
 
-func reservePort(t *testing.T) int {
-	ln, err := net.Listen("tcp4", "127.0.0.1:0")
+// reservePort returns a port that refuses connections until release is called (it stays bound,
+// not listening, so no listener of the harness or the proxy can be given the same number).
+func reservePort(t *testing.T) (int, func()) {
+	p, release, err := literig.ReserveClosedPort()
 	if err != nil {
 		t.Fatal(err)
 	}
-	p := ln.Addr().(*net.TCPAddr).Port
-	_ = ln.Close()
-	return p
+	return p, release
 }
 
 func canon(s string) string {
@@ -415,19 +418,24 @@ func TestBalance(t *testing.T) {
 		}
 		var bes []*literig.Backend
 		portX, portY := 0, 0
+		var releases []func()
 		if upX {
 			be := newBackend(t, "127.0.0.1:0")
 			portX = be.Port
 			bes = append(bes, be)
 		} else {
-			portX = reservePort(t)
+			var rel func()
+			portX, rel = reservePort(t)
+			releases = append(releases, rel)
 		}
 		if upY {
 			be := newBackend(t, "127.0.0.1:0")
 			portY = be.Port
 			bes = append(bes, be)
 		} else {
-			portY = reservePort(t)
+			var rel func()
+			portY, rel = reservePort(t)
+			releases = append(releases, rel)
 		}
 		skip := false
 		if usesD {
@@ -448,6 +456,9 @@ func TestBalance(t *testing.T) {
 			st.Skipped++
 			for _, be := range bes {
 				be.Close()
+			}
+			for _, rel := range releases {
+				rel()
 			}
 			continue
 		}
@@ -615,6 +626,9 @@ func TestBalance(t *testing.T) {
 		for _, be := range bes {
 			be.Close()
 		}
+		for _, rel := range releases {
+			rel()
+		}
 	}
 
 	lap("scenarios")
@@ -703,6 +717,8 @@ func TestBalance(t *testing.T) {
 
 	countSchedules(t, tw, st)
 	lap("count_schedules")
+	leastSchedules(t, tw, st)
+	lap("least_schedules")
 	apiStress(tw, st, rng, tracefmt.EnvInt("VERIF_STRESS", 30))
 	lap("api_stress")
 
@@ -774,6 +790,79 @@ func countSchedules(t *testing.T, tw *tracefmt.Writer, st *stats) {
 		// everything returned: the count must be back to zero
 		tw.Emit(tracefmt.Rec{"ev": "obegin", "o": "end"})
 		tw.Emit(tracefmt.Rec{"ev": "obs", "o": "end", "n": int(sm.ActiveConnections())})
+		for _, e := range c.Log {
+			if at := strings.IndexByte(e, '@'); at >= 0 {
+				st.GateArrival[e[at+1:]]++
+			}
+		}
+	}
+}
+
+// leastSchedules forces the TLC-generated interleavings of two workers opening and closing a
+// connection to the same backend (gates lb.track.mid, lb.untrack.zero, lb.untrack.mid and the
+// harness's hold) and of a reader asking the least-connections strategy to choose between
+// that backend and an idle one.
+func leastSchedules(t *testing.T, tw *tracefmt.Writer, st *stats) {
+	b, err := os.ReadFile(filepath.Join(tracefmt.OutDir(), "leastsched.json"))
+	if err != nil {
+		t.Fatal(err)
+	}
+	var scheds [][]string
+	if err := json.Unmarshal(b, &scheds); err != nil {
+		t.Fatal(err)
+	}
+	step := time.Duration(tracefmt.EnvInt("VERIF_STEP_MS", 3)) * time.Millisecond
+	const busy, idle = "b.example:25565", "c.example:25565"
+	route := &config.Route{Strategy: config.StrategyLeastConnections}
+	for i, s := range scheds {
+		tw.Emit(tracefmt.Rec{"ev": "reset", "n": i, "kind": "least", "strategy": "", "list": [][]int{}, "up": [][]int{}})
+		sm := lite.NewStrategyManager()
+		c := sched.New(nil, "lb.track.mid", "lb.untrack.zero", "lb.untrack.mid", "c30.hold", "c30.obs")
+		c.Install()
+		workers := map[string]bool{}
+		picks := 0
+		for _, name := range s {
+			if name == "o" {
+				picks++
+			} else {
+				workers[name] = true
+			}
+		}
+		for w := range workers {
+			c.Go(w, func() {
+				tw.Emit(tracefmt.Rec{"ev": "tb"})
+				done := sm.TrackConnection("lb.ex", busy)
+				tw.Emit(tracefmt.Rec{"ev": "te"})
+				lite.VerifPoint("c30.hold")
+				tw.Emit(tracefmt.Rec{"ev": "ub"})
+				done()
+				tw.Emit(tracefmt.Rec{"ev": "ue"})
+			})
+		}
+		c.Go("o", func() {
+			for k := 0; k < picks; k++ {
+				tw.Emit(tracefmt.Rec{"ev": "pbegin", "o": "o"})
+				got, _, _ := sm.GetNextBackend(logr.Discard(), route, "lb.ex", []string{busy, idle})
+				name := "C"
+				if got == busy {
+					name = "B"
+					st.PickedB++
+				} else {
+					st.PickedC++
+				}
+				tw.Emit(tracefmt.Rec{"ev": "pick", "o": "o", "b": name})
+				if k < picks-1 {
+					lite.VerifPoint("c30.obs")
+				}
+			}
+		})
+		res := c.Run(s, step, 30*time.Second)
+		c.Uninstall()
+		st.LeastScheds++
+		st.CountBlocked += res.Blocked
+		if !res.Finished {
+			tw.Emit(tracefmt.Rec{"ev": "hung", "n": i})
+		}
 		for _, e := range c.Log {
 			if at := strings.IndexByte(e, '@'); at >= 0 {
 				st.GateArrival[e[at+1:]]++
